@@ -105,7 +105,45 @@ def _migrate(tier):
     return [{"engine": "migrate", "pre": [BUILD_CLI], "shards": 2, "args": dict(args, sources=6000, threads=8)}]
 
 
+def _san(tier):
+    q = tier == "quick"
+    asan = {"lane": "asan", "parallel": 8, "runs": [
+        {"engine": "conc", "shards": 4 if q else 12, "args": {"mode": "lin", "histories": 250 if q else 4000}},
+        {"engine": "conc", "shards": 2 if q else 8, "args": {"mode": "reuse", "runs": 2 if q else 30}},
+        {"engine": "conc", "shards": 2 if q else 8, "args": {"mode": "scan", "runs": 2 if q else 30}},
+        {"engine": "conc", "shards": 1 if q else 4, "args": {"mode": "memlimit", "runs": 4 if q else 60}},
+        {"engine": "model", "args": {"focus": "all", "configs": "v3", "programs": 4 if q else 60, "steps": 100, "threads": 8}},
+        {"engine": "model", "args": {"focus": "cache", "configs": "mem", "programs": 6 if q else 60, "steps": 100, "threads": 8}},
+        {"engine": "crash", "args": {"mode": "all", "workloads": 3 if q else 30, "cuts": 30 if q else 150, "threads": 16}},
+        {"engine": "fuzzopen", "args": {"images": 500 if q else 20000, "threads": 8}},
+        {"engine": "fault", "args": {"threads": 8}} if not q else {"engine": "san", "args": {"mode": "mini", "persistent": 1, "ops": 200}},
+        {"engine": "live", "args": {"mode": "live", "runs": 8 if q else 80, "threads": 4}},
+        {"engine": "san", "args": {"mode": "direct", "rounds": 20 if q else 200}},
+    ]}
+    tsan = {"lane": "tsan", "parallel": 6, "runs": [
+        {"engine": "conc", "shards": 3 if q else 12, "args": {"mode": "lin", "histories": 120 if q else 2000}},
+        {"engine": "conc", "shards": 1 if q else 6, "args": {"mode": "scan", "runs": 2 if q else 20}},
+        {"engine": "conc", "shards": 1 if q else 6, "args": {"mode": "reuse", "runs": 1 if q else 20}},
+        {"engine": "san", "args": {"mode": "mini", "persistent": 1, "ops": 300}},
+    ]}
+    miri = {"lane": "miri", "parallel": 8, "runs": [
+        {"engine": "san", "shards": 6 if q else 64, "args": {"mode": "mini", "ops": 8 if q else 14}},
+        {"engine": "san", "shards": 1 if q else 8, "args": {"mode": "mini", "ops": 4, "persistent": 1}},
+    ]}
+    memcheck = {"lane": "memcheck", "parallel": 8, "runs": [
+        {"engine": "san", "args": {"mode": "mini", "persistent": 1, "ops": 60}},
+        {"engine": "conc", "shards": 1 if q else 4, "args": {"mode": "reuse", "runs": 1 if q else 6}},
+        {"engine": "model", "args": {"focus": "all", "configs": "v3", "programs": 1 if q else 8, "steps": 60, "threads": 4}},
+        {"engine": "san", "args": {"mode": "direct", "rounds": 4 if q else 40}},
+    ]}
+    return [asan, tsan, miri, memcheck]
+
+
 PLAN = {
+    "C20": {"level": "exploration", "engines": _san, "min_nontrivial": 50,
+            "assumptions": ["tools: rustc nightly -Zsanitizer=address (no build-std), -Zsanitizer=thread with -Zbuild-std, Miri with the aliasing model and race detector off (the dependency scc 2.4.0 trips them; see DESIGN.md section 6) and short fd operations off, valgrind 3.19 memcheck on the plain release profile",
+                            "a report is in scope when the faulting / racing access is in /repo/src; reports whose accesses are entirely inside third-party crates are listed in evidence, not failed",
+                            "kernel-side reads of a freed io_uring buffer are invisible to all of these tools; sanitizers judge only the executions produced"]},
     "C15": {"level": "exploration", "engines": _migrate, "min_nontrivial": 30,
             "assumptions": ["expected contents of a legacy source = recovery by the independent codec with TTL filtering off, cross-checked against the real store opened on a copy of the source", "no other process touches source or destination during migration (outside the property)", "the feox-migrate binary is rebuilt from /repo (dev profile, default features) for the CLI sample"]},
     "C17": {"level": "exploration", "engines": _fuzz, "min_nontrivial": 100,
